@@ -8,6 +8,7 @@ import ZkVerif.Model.Arith
 import ZkVerif.Model.Transcript
 import ZkVerif.Model.Merchant
 import ZkVerif.Model.Abacus
+import ZkVerif.Model.Customer
 namespace ZkVerif.Ops
 open ZkVerif ZkVerif.Proto
 
@@ -145,6 +146,60 @@ def decFq (bs : List UInt8) : Option Fq :=
   if bs.length = 32 ∧ decLE bs < q then some ⟨decLE bs⟩ else none
 
 def tRevPair (p : RevPair Fq) : String := join [tV "ok", tS p.lock, tS p.secret, tN p.index]
+
+/-- a customer `State` as 7 request fields: cid nonce lock secret index cb mb -/
+def parseCState (l : List String) : Option (CState Fq) :=
+  match l with
+  | [cid, nonce, lock, secret, index, cb, mb] => do
+    pure ⟨← parseFq cid, ← parseFq nonce, ← parseFq lock, ← parseFq secret, ← parseHex index, ← parseHex cb, ← parseHex mb⟩
+  | _ => none
+
+def tCState (s : CState Fq) : String := join [tS s.cid, tS s.nonce, tS s.lock, tS s.secret, tN s.index, tN s.cb, tN s.mb]
+
+def tCustomer : Customer Fq Fq → String
+  | .requested st a b => join [tV "requested", tCState st, tS a, tS b]
+  | .inactive st b cs => join [tV "inactive", tCState st, tS b, tSig cs]
+  | .ready st t cs => join [tV "ready", tCState st, tSig t, tSig cs]
+  | .started n o a b c cs => join [tV "started", tCState n, tCState o, tS a, tS b, tS c, tSig cs]
+  | .locked st b cs => join [tV "locked", tCState st, tS b, tSig cs]
+
+/-- customer stage from request fields: `requested st7 bfC bfT` | `inactive st7 bfT s1 s2` |
+`ready st7 t1 t2 c1 c2` | `started new7 old7 bfRl bfT bfC c1 c2` | `locked st7 bfT c1 c2` -/
+def parseCustomer (l : List String) : Option (Customer Fq Fq) :=
+  match l with
+  | "requested" :: r => do
+    let st ← parseCState (r.take 7)
+    match r.drop 7 with
+    | [a, b] => pure (.requested st (← parseFq a) (← parseFq b))
+    | _ => none
+  | "inactive" :: r => do
+    let st ← parseCState (r.take 7)
+    match r.drop 7 with
+    | [b, s1, s2] => pure (.inactive st (← parseFq b) ⟨← parseFq s1, ← parseFq s2⟩)
+    | _ => none
+  | "ready" :: r => do
+    let st ← parseCState (r.take 7)
+    match r.drop 7 with
+    | [t1, t2, c1, c2] => pure (.ready st ⟨← parseFq t1, ← parseFq t2⟩ ⟨← parseFq c1, ← parseFq c2⟩)
+    | _ => none
+  | "started" :: r => do
+    let n ← parseCState (r.take 7)
+    let o ← parseCState ((r.drop 7).take 7)
+    match r.drop 14 with
+    | [a, b, c, c1, c2] => pure (.started n o (← parseFq a) (← parseFq b) (← parseFq c) ⟨← parseFq c1, ← parseFq c2⟩)
+    | _ => none
+  | "locked" :: r => do
+    let st ← parseCState (r.take 7)
+    match r.drop 7 with
+    | [b, c1, c2] => pure (.locked st (← parseFq b) ⟨← parseFq c1, ← parseFq c2⟩)
+    | _ => none
+  | _ => none
+
+def tReply : Reply Fq → String
+  | .accepted => tV "accepted"
+  | .acceptedLock m => join [tV "accepted-lock", tS m.lock, tS m.secret, tN m.index, tS m.bf]
+  | .refused => tV "refused"
+  | .wrongStage => tV "wrong-stage"
 
 def tErr : Err → String
   | .amountTooLarge v => join [tV "amount-too-large", tN v]
@@ -317,6 +372,37 @@ def dispatch (args : List String) : Option String :=
       match m.completePayment ⟨← parseFq rlCom, ← parseFq state⟩ (← parseFq lock) (← parseFq bf) (← parseFq u) with
       | .ok σ => pure (join [tV "ok", tSig σ])
       | .error _ => pure (tV "error")
+  -- customer state machine (C03, C04, C20): `cust <op> <pk 5 args> close | <customer fields…> | <op args…>`
+  | "cust" :: op :: g1 :: y1s :: g2 :: x2 :: y2s :: close :: rest => do
+      let pk := mkPk (← parseFq g1) (← parseList y1s) (← parseFq g2) (← parseFq x2) (← parseList y2s)
+      let cl ← parseFq close
+      let parts := rest.splitOn "|"
+      match parts with
+      | [[], cf, af] => do
+        let c ← parseCustomer cf
+        match op, af with
+        | "complete", [s1, s2] =>
+          let r := c.complete Fq.e pk cl ⟨← parseFq s1, ← parseFq s2⟩
+          pure (join [tReply r.2, tCustomer r.1])
+        | "activate", [s1, s2] =>
+          let r := c.activate Fq.e pk ⟨← parseFq s1, ← parseFq s2⟩
+          pure (join [tReply r.2, tCustomer r.1])
+        | "lock", [s1, s2] =>
+          let r := c.lock Fq.e pk cl ⟨← parseFq s1, ← parseFq s2⟩
+          pure (join [tReply r.2, tCustomer r.1])
+        | "unlock", [s1, s2] =>
+          let r := c.unlock Fq.e pk ⟨← parseFq s1, ← parseFq s2⟩
+          pure (join [tReply r.2, tCustomer r.1])
+        | "start", [amt, nonce, lock, secret, index, bfRl, bfT, bfC] =>
+          let r := c.start (i64OfU64 (← parseHex amt)) ⟨← parseFq nonce, ← parseFq lock, ← parseFq secret, ← parseHex index, ← parseFq bfRl, ← parseFq bfT, ← parseFq bfC⟩
+          pure (join [tRes (fun _ => "v:started") r.2, tCustomer r.1])
+        | "close", [r] =>
+          match c.close (← parseFq r) with
+          | some m => pure (join [tV "closing", tSig m.sig, tS m.cid, tS m.lock, tN m.cb, tN m.mb,
+              tB (psVerify Fq.e pk m.sig (m.msg cl))])
+          | none => pure (tV "no-close")
+        | _, _ => none
+      | _ => none
   | ["pk-validate", g1, y1s, g2, x2, y2s] => do
       let pk := mkPk (← parseFq g1) (← parseList y1s) (← parseFq g2) (← parseFq x2) (← parseList y2s)
       pure (tB (decide pk.Valid))
